@@ -4,6 +4,7 @@ CONSTANTS
   Modes <- ModesThoroughP
   IterateAllFields = FALSE
   SplitEverySpace = FALSE
+  CacheWidths = FALSE
   Emit = TRUE
   EmitOff = 0
 SPECIFICATION Spec
